@@ -52,6 +52,22 @@ def case_strategy(draw):
             regs.append([draw(IDX), draw(reguniv.reg_key_biased()),
                          draw(IDX), draw(st.sampled_from(NAMES + ['', ''])),
                          k])
+    if draw(st.integers(0, 2)) == 0:
+        # recipe: a provided-side hierarchy with a chain and a branch
+        # (P1(P0), P2(P1), P3(P0), P4(...)), and one (registry, required,
+        # name) key registered for several of them in a drawn order - the
+        # order in which provided interfaces become known to the registry
+        # shapes its table of extendors (seeds C04b, C04c)
+        bp['pbases'] = [[], [0], [1], [0],
+                        draw(st.sampled_from([[0], [3], [1, 3], [2]]))]
+        order = list(draw(st.permutations([0, 1, 2, 3, 4])))
+        order = order[:draw(st.integers(3, 5))]
+        first = regs[0] if regs[0][0] not in ('rel', 'relp') else \
+            [draw(IDX), draw(reguniv.reg_key_biased()), order[0], '', 0]
+        first = list(first)
+        first[2] = order[0]
+        regs = [first] + [['relp', 0, pp, 100 + k]
+                          for k, pp in enumerate(order[1:])] + regs[1:]
     lookups = []
     for _ in range(draw(st.integers(1, 12))):
         if draw(st.integers(0, 9)) < 8:
